@@ -59,7 +59,10 @@ func c03Payload(i int, long bool) string {
 // c03Emit is the single call site of every event (so file:line is the same in the reference run).
 func c03Emit(ev c03Event) {
 	ctx := context.WithValue(context.Background(), c03TimeKey{}, ev.ms)
-	log.Info(ctx, c03Tags[ev.tag], log.String("k", ev.payload), log.Int("n", len(ev.payload)))
+	// scalar, array and nested-object values: every encoder path writes into the event's own buffer
+	log.Info(ctx, c03Tags[ev.tag], log.String("k", ev.payload), log.Int("n", len(ev.payload)),
+		log.Ints("ids", []int{len(ev.payload), ev.ms}), log.Strings("who", []string{ev.payload[:3]}),
+		log.Object("o", log.String("p", ev.payload[:4]), log.Bools("b", []bool{true})))
 }
 
 func c03Time(ctx context.Context) time.Time {
